@@ -49,6 +49,27 @@ def _same_name_fns():
 _SN_FNS, _SN_LAMBDA_PROPS, _SN_CLASS_PROPS = _same_name_fns()
 
 
+class _Threshold:
+    def __init__(self, limit):
+        self.limit = limit
+
+    def exceeded(self, x):
+        return isinstance(x, (int, float)) and not isinstance(x, bool) and x > self.limit
+
+    def __call__(self, x):
+        return self.exceeded(x)
+
+
+import functools as _functools
+
+# the same function bound to two objects, partial applications of one function, two callable objects of one class: same
+# code, same name, different behaviour (kept here once each: a bound method is a new object at every attribute access)
+_BOUND = [_Threshold(1).exceeded, _Threshold(2).exceeded]
+_isk = lambda k, x: isinstance(x, k)  # noqa: E731
+_PARTIALS = [_functools.partial(_isk, int), _functools.partial(_isk, str)]
+_CALLABLES = [_Threshold(1), _Threshold(2)]
+
+
 def atom_thunks():
     """(description, thunk) for every exported atom kind at two or three parameter choices."""
     T = []
@@ -118,6 +139,9 @@ def atom_thunks():
         add(f"property <lambda> #{i}", lambda i=i: PropertyPredicate(getter=_SN_LAMBDA_PROPS[i]))
         add(f"property Host.flag #{i}", lambda i=i: PropertyPredicate(getter=_SN_CLASS_PROPS[i]))
         add(f"fn same-name #{i}", lambda i=i: fn_p(_SN_FNS[i]))
+        add(f"fn bound method of object #{i}", lambda i=i: fn_p(_BOUND[i]))
+        add(f"fn callable object #{i}", lambda i=i: fn_p(_CALLABLES[i]))
+        add(f"fn partial #{i}", lambda i=i: fn_p(_PARTIALS[i]))
         add(f"tee same-name #{i}", lambda i=i: tee_p(_SN_FNS[i]))
         add(f"comp same-name #{i} truthy", lambda i=i: comp_p(_SN_FNS[i], is_truthy_p))
     for i in range(2):
